@@ -126,7 +126,18 @@ def ill_conditioned(g):
     return Spec([[big, 0.0], [0.0, 1.0]], [-1.0, -1.0], 0.0, [], [], [], [-INF, -INF], [INF, INF], [], [])
 
 
-FAMILIES = {"separable": separable, "ill_conditioned": ill_conditioned, "convex_qp": convex_qp, "nonlinear": nonlinear, "infeasible": infeasible, "unbounded": unbounded,
+def vertex(g):
+    """a box QP whose solution is a vertex of the box: every variable ends up active"""
+    r = g.rng
+    n = r.randint(1, 3)
+    P = [[0.0] * n for _ in range(n)]
+    for i in range(n):
+        P[i][i] = 1.0
+    q = [r.choice([-64.0, 64.0]) for _ in range(n)]
+    return Spec(P, q, 0.0, [], [], [], [0.0] * n, [1.0] * n, [], [])
+
+
+FAMILIES = {"vertex": vertex, "separable": separable, "ill_conditioned": ill_conditioned, "convex_qp": convex_qp, "nonlinear": nonlinear, "infeasible": infeasible, "unbounded": unbounded,
             "unbounded_cons": unbounded_cons, "line1": line1}
 
 
@@ -148,6 +159,8 @@ def gen_config(g, allow=None):
     if allow:
         for k, v in allow.items():
             cfg[k] = r.choice(v) if isinstance(v, list) else v
+    if cfg["linear_solver_type"] == "MINRES" and cfg["step_solver_type"] != "Symmetric":
+        cfg["linear_solver_type"] = "LU"          # MINRES is only valid for the symmetric reduced system
     return cfg
 
 
